@@ -21,6 +21,7 @@ type region struct {
 	used      int
 	frozen    bool
 	revisions int
+	nOrig     int
 	revOf     []int // indices of (original, revision, probe) when a revision exists
 	focus     []int // when set, geometry arguments are drawn from these operands only
 	heapOut   int   // allocations that did not fit and went to the Go heap
@@ -99,6 +100,7 @@ type pool struct {
 	pubT      []uint64
 	frozen    bool
 	revisions int
+	nOrig     int
 	revOf     []int // indices of (original, revision, probe) when a revision exists
 	focus     []int // when set, geometry arguments are drawn from these operands only
 	general   bool
@@ -251,6 +253,7 @@ func buildPool(m *vs.Stream, freeze bool) (*pool, error) {
 	for _, g := range p.geoms {
 		p.pubG = append(p.pubG, digestOf(g))
 	}
+	p.nOrig = len(p.pubG)
 	for _, s := range p.seqs {
 		p.pubS = append(p.pubS, digestOf(s))
 	}
